@@ -47,6 +47,12 @@ CONSTANTS Vals,     \* values that operations add (positive integers)
 
 Default == 0
 NoLimit == 99
+\* Boundary values of the argument TYPE (uint32 index / count parameters, int32 strides), written as small codes because TLC's integers are 32 bit wide
+\* and because all that matters about them here is that they are larger than every size: 95 = 0x7FFFFFFF, 96 = 0x80000000, 97 = 0xFFFFFFFE,
+\* 99 = 0xFFFFFFFF (MUSCLE_NO_LIMIT, also what a failed IndexOf() gives when it is used as an index); -95 / 95 as a stride = INT32_MIN / INT32_MAX.
+Big  == {95, 96, 97, 99}
+Big2 == {96, 99}
+Huge(n) == n >= 90
 Items   == Vals \cup {Default}
 
 VARIABLES s,      \* the sequence
@@ -195,15 +201,16 @@ ReplaceAll(v)        == Void("ReplaceAll", 0, 0, 0, v, <<>>, [i \in 1..Len(s) |-
 (* size *)
 Clear(release) == Void("Clear", release, 0, 0, 0, <<>>, <<>>, <<>>)
 FastClear      == Void("FastClear", 0, 0, 0, 0, <<>>, <<>>, <<>>)      \* documented to leave owning items in the array: bound for trivially copyable items only
-EnsureSize(n)  == Ok("EnsureSize", n, 0, 0, 0, <<>>, s, <<>>)          \* "the number of items officially in the Queue remains the same as before"
+\* a number of slots that cannot be had (type boundary values) is a failure that changes nothing: "B_OUT_OF_MEMORY or B_RESOURCE_LIMIT on failure"
+EnsureSize(n)  == IF Huge(n) THEN Fail("EnsureSize", n, 0, 0, 0, <<>>, "err") ELSE Ok("EnsureSize", n, 0, 0, 0, <<>>, s, <<>>)          \* "the number of items officially in the Queue remains the same as before"
 \* "adding or removing [default] items to (from) the tail of the Queue until the Queue is the specified size"
-EnsureSizeSet(n) == Ok("EnsureSizeSet", n, 0, 0, 0, <<>>,
+EnsureSizeSet(n) == IF Huge(n) THEN Fail("EnsureSizeSet", n, 0, 0, 0, <<>>, "err") ELSE Ok("EnsureSizeSet", n, 0, 0, 0, <<>>,
                        IF n >= Len(s) THEN s \o (IF Wrong = "stale" THEN [i \in 1..(n - Len(s)) |-> 1] ELSE Defaults(n - Len(s))) ELSE Take(s, n), <<>>)
 SetSize(n) == IF n >= Len(s) THEN s \o Defaults(n - Len(s)) ELSE Take(s, n)
-EnsureSizeX(n, extra, shrink) == Ok("EnsureSizeX", n, extra, shrink, 0, <<>>, s, <<>>)     \* EnsureSize(n, false, extraReallocItems, allowShrink): only the allocation changes, whatever n is
-EnsureSizeSetX(n, extra, shrink) == Ok("EnsureSizeSetX", n, extra, shrink, 0, <<>>, SetSize(n), <<>>)   \* EnsureSize(n, true, extraReallocItems, allowShrink): "[extra] is ignored if (setNumItems) is true"
-EnsureCanAdd(n) == Ok("EnsureCanAdd", n, 0, 0, 0, <<>>, s, <<>>)
-ShrinkToFit(n)  == Ok("ShrinkToFit", n, 0, 0, 0, <<>>, s, <<>>)
+EnsureSizeX(n, extra, shrink) == IF Huge(n) THEN Fail("EnsureSizeX", n, extra, shrink, 0, <<>>, "err") ELSE Ok("EnsureSizeX", n, extra, shrink, 0, <<>>, s, <<>>)     \* EnsureSize(n, false, extraReallocItems, allowShrink): only the allocation changes, whatever n is
+EnsureSizeSetX(n, extra, shrink) == IF Huge(n) THEN Fail("EnsureSizeSetX", n, extra, shrink, 0, <<>>, "err") ELSE Ok("EnsureSizeSetX", n, extra, shrink, 0, <<>>, SetSize(n), <<>>)   \* EnsureSize(n, true, extraReallocItems, allowShrink): "[extra] is ignored if (setNumItems) is true"
+EnsureCanAdd(n) == IF Huge(n) THEN Fail("EnsureCanAdd", n, 0, 0, 0, <<>>, "err") ELSE Ok("EnsureCanAdd", n, 0, 0, 0, <<>>, s, <<>>)     \* "B_RESOURCE_LIMIT" when GetNumItems()+n overflows
+ShrinkToFit(n)  == IF Huge(n) THEN Fail("ShrinkToFit", n, 0, 0, 0, <<>>, "err") ELSE Ok("ShrinkToFit", n, 0, 0, 0, <<>>, s, <<>>)
 Normalize       == Void("Normalize", 0, 0, 0, 0, <<>>, s, <<>>)
 
 (* searching and comparing *)
@@ -247,9 +254,9 @@ Release           == Void("Release", 0, 0, 0, 0, <<>>, <<>>, <<>>)      \* Relea
 Idx   == 0..Len(s)                 \* the valid indices and the first invalid one
 Far   == Len(s) + 2
 Fits(n) == Len(s) + n <= MaxLen
-Cuts  == {<<0, NoLimit>>, <<1, NoLimit>>, <<0, 1>>, <<1, 1>>, <<3, NoLimit>>}      \* <<startIndex, numItems>>
-Cuts2 == {<<0, NoLimit>>, <<1, 1>>}
-Ranges == {<<0, NoLimit>>, <<1, NoLimit>>, <<0, 2>>, <<1, 3>>, <<2, 2>>, <<3, 1>>, <<5, NoLimit>>}    \* <<from, to>>
+Cuts  == {<<0, NoLimit>>, <<1, NoLimit>>, <<0, 1>>, <<1, 1>>, <<3, NoLimit>>, <<96, NoLimit>>, <<1, 96>>, <<97, 95>>}      \* <<startIndex, numItems>>
+Cuts2 == {<<0, NoLimit>>, <<1, 1>>, <<0, 96>>, <<NoLimit, 1>>}
+Ranges == {<<0, NoLimit>>, <<1, NoLimit>>, <<0, 2>>, <<1, 3>>, <<2, 2>>, <<3, 1>>, <<5, NoLimit>>, <<0, 96>>, <<96, NoLimit>>, <<97, 95>>, <<1, 95>>}    \* <<from, to>>
 
 Ready == ~(RECORD /\ last.op # "idle")
 GenAdd == Ready /\
@@ -257,47 +264,55 @@ GenAdd == Ready /\
                   \/ AddTailDefault \/ AddHeadDefault \/ AddTailGet \/ AddHeadGet
                   \/ \E j \in Idx : AddTailOwn(j) \/ AddHeadOwn(j)
                   \/ \E i \in Idx \cup {Far}, v \in Vals : InsertItemAt(i, v)
-                  \/ \E i \in Idx \cup {Far} : InsertItemAtDefault(i)
-                  \/ \E i \in Idx, j \in {0, Len(s) - 1} : InsertItemAtOwn(i, j)
+                  \/ \E i \in Big : InsertItemAt(i, 1)
+                  \/ \E i \in Idx \cup {Far} \cup Big2 : InsertItemAtDefault(i)
+                  \/ \E i \in Idx \cup Big2, j \in {0, Len(s) - 1} : InsertItemAtOwn(i, j)
                   \/ \E v \in Vals : InsertSorted(v)
     \/ \E v \in Vals : (Fits(1) \/ v \in ItemsOf(s)) /\ (AddTailIfAbsent(v) \/ AddHeadIfAbsent(v))
-    \/ \E src \in Srcs, c \in Cuts : Fits(SliceLen(src, c[1], c[2])) /\ (AddTailMulti(src, c[1], c[2]) \/ AddHeadMulti(src, c[1], c[2]))
+    \* (startIndex = 0x80000000 is kept out of AddHeadMulti: open known finding QaddHeadStartSign)
+    \/ \E src \in Srcs, c \in Cuts : Fits(SliceLen(src, c[1], c[2])) /\ (AddTailMulti(src, c[1], c[2]) \/ (c[1] # 96 /\ AddHeadMulti(src, c[1], c[2])))
     \/ \E src \in Srcs : Fits(Len(src)) /\ (AddTailMultiArr(src) \/ AddHeadMultiArr(src))
-    \/ \E c \in Cuts : Fits(SliceLen(s, c[1], c[2])) /\ (AddTailMultiSelf(c[1], c[2]) \/ AddHeadMultiSelf(c[1], c[2]))
+    \/ \E c \in Cuts : Fits(SliceLen(s, c[1], c[2])) /\ (AddTailMultiSelf(c[1], c[2]) \/ (c[1] # 96 /\ AddHeadMultiSelf(c[1], c[2])))
     \/ \E i \in Idx, src \in Srcs, c \in Cuts2 : Fits(SliceLen(src, c[1], c[2])) /\ InsertItemsAt(i, src, c[1], c[2])
+    \/ \E i \in Big2 : InsertItemsAt(i, <<>>, 0, NoLimit)       \* nothing to insert: documented to succeed wherever
     \/ \E i \in Idx, src \in Srcs : Fits(Len(src)) /\ InsertItemsAtArr(i, src)
     \/ \E i \in Idx, c \in Cuts2 : Fits(SliceLen(s, c[1], c[2])) /\ InsertItemsAtSelf(i, c[1], c[2])
 GenRemove == Ready /\
     \/ RemoveHead \/ RemoveHeadRet \/ RemoveHeadDef \/ RemoveTail \/ RemoveTailRet \/ RemoveTailDef
-    \/ \E n \in {0, 1, 2, 9} : RemoveHeadMulti(n) \/ RemoveTailMulti(n)
-    \/ \E i \in Idx \cup {Far} : RemoveItemAt(i) \/ RemoveItemAtRet(i) \/ RemoveItemAtDef(i)
+    \/ \E n \in {0, 1, 2, 9} \cup Big : RemoveHeadMulti(n) \/ RemoveTailMulti(n)
+    \/ \E i \in Idx \cup {Far} \cup Big : RemoveItemAt(i) \/ RemoveItemAtRet(i) \/ RemoveItemAtDef(i)
     \/ \E v \in Vals : RemoveFirst(v) \/ RemoveLast(v) \/ RemoveAll(v)
     \/ \E j \in Idx : RemoveAllOwn(j)
     \/ RemoveDup \/ RemoveSortedDup
     \/ \E r \in {0, 1} : Clear(r)
     \/ Release
 GenIndex == Ready /\
-    \/ \E i \in Idx \cup {Far} : GetItemAt(i) \/ GetItemPtr(i) \/ GetWithDefault(i) \/ ReplaceItemAtDefault(i)
+    \/ \E i \in Idx \cup {Far} \cup Big : GetItemAt(i) \/ GetItemPtr(i) \/ GetWithDefault(i) \/ ReplaceItemAtDefault(i)
     \/ \E i \in Idx, v \in Vals : ReplaceItemAt(i, v) \/ GetWithDefaultV(i, v)
+    \/ \E i \in Big : ReplaceItemAt(i, 1) \/ GetWithDefaultV(i, 2)
     \/ \E v \in Vals : ReplaceAll(v)
     \/ HeadWithDefault \/ TailWithDefault
 GenSize == Ready /\
-    \/ \E n \in {0, 2, 4, 5, 8} : EnsureSize(n)
-    \/ \E n \in 0..MaxLen : EnsureSizeSet(n)
+    \/ \E n \in {0, 2, 4, 5, 8} \cup Big2 : EnsureSize(n)
+    \/ \E n \in (0..MaxLen) \cup Big2 : EnsureSizeSet(n)
+    \* (a boundary value for extraReallocItems is kept out: open known finding QextraOverflow)
+    \/ \E n \in Big2, sh \in {0, 1} : EnsureSizeX(n, 0, sh) \/ EnsureSizeSetX(n, 0, sh)
     \/ \E x \in {<<0, 0, 1>>, <<2, 0, 1>>, <<4, 0, 1>>, <<4, 2, 0>>, <<3, 2, 1>>, <<6, 0, 0>>} : EnsureSizeX(x[1], x[2], x[3])
     \/ \E x \in {<<0, 0, 1>>, <<1, 0, 1>>, <<2, 2, 1>>, <<3, 0, 0>>, <<4, 0, 1>>} : x[1] <= MaxLen /\ EnsureSizeSetX(x[1], x[2], x[3])
-    \/ \E n \in {1, 3, 6} : EnsureCanAdd(n)
-    \/ \E n \in {0, 1, 4} : ShrinkToFit(n)
+    \/ \E n \in {1, 3, 6} \cup Big : EnsureCanAdd(n)
+    \/ \E n \in {0, 1, 4} \cup Big : ShrinkToFit(n)
     \/ Normalize
 GenQuery == Ready /\
-    \/ \E v \in Vals, r \in {<<0, NoLimit>>, <<1, NoLimit>>, <<0, 2>>, <<2, 1>>} : IndexOf(v, r[1], r[2])
-    \/ \E v \in Vals, r \in {<<NoLimit, 0>>, <<2, 0>>, <<NoLimit, 1>>, <<1, 2>>, <<0, 5>>} : LastIndexOf(v, r[1], r[2])
+    \/ \E v \in Vals, r \in {<<0, NoLimit>>, <<1, NoLimit>>, <<0, 2>>, <<2, 1>>, <<0, 96>>, <<96, NoLimit>>, <<97, 95>>} : IndexOf(v, r[1], r[2])
+    \/ \E v \in Vals, r \in {<<NoLimit, 0>>, <<2, 0>>, <<NoLimit, 1>>, <<1, 2>>, <<0, 5>>, <<96, 0>>, <<95, 1>>, <<NoLimit, 96>>, <<97, NoLimit>>} : LastIndexOf(v, r[1], r[2])
     \/ IndexOf(Default, 0, NoLimit) \/ LastIndexOf(Default, NoLimit, 0)
-    \/ \E v \in Vals : Contains(v, 0, NoLimit) \/ Contains(v, 1, 3) \/ StartsWith(v) \/ EndsWith(v)
+    \/ \E v \in Vals : Contains(v, 0, NoLimit) \/ Contains(v, 1, 3) \/ Contains(v, 96, NoLimit) \/ Contains(v, 0, 96) \/ StartsWith(v) \/ EndsWith(v)
     \/ \E src \in Srcs \cup {Take(s, 2), Drop(s, 1), s} : StartsWithQ(src) \/ EndsWithQ(src) \/ Cmp(src)
     \/ Cmp(Take(s, Len(s) - 1)) \/ (Len(s) < MaxLen /\ Cmp(Append(s, Default))) \/ CmpSelf
     \/ \E x \in {<<0, 1>>, <<1, 2>>, <<0, 3>>} : Iter(x[1], x[2])
     \/ Iter(Len(s) - 1, -1) \/ Iter(Len(s), -1) \/ Iter(Len(s) - 1, -2)
+    \/ \E i \in Big : Iter(i, 1) \/ Iter(i, -1)
+    \/ Iter(0, 95) \/ Iter(Len(s) - 1, -95) \/ Iter(1, -95) \/ Iter(0, -95)
 GenArrange == Ready /\
     \/ \E i, j \in Idx : i <= j /\ Swap(i, j)
     \/ \E r \in Ranges : Reverse(r[1], r[2]) \/ Sort(r[1], r[2])
@@ -326,6 +341,7 @@ TypeOK == /\ Len(s) <= MaxLen /\ \A i \in 1..Len(s) : s[i] \in Items
 IndexedOps == {"RemoveItemAt", "RemoveItemAtRet", "GetItemAt", "ReplaceItemAt", "ReplaceItemAtDefault"}
 EndOps     == {"RemoveHead", "RemoveHeadRet", "RemoveTail", "RemoveTailRet"}
 FindOps    == {"RemoveFirst", "RemoveLast"}
+SizeOps    == {"EnsureSize", "EnsureSizeSet", "EnsureSizeX", "EnsureSizeSetX", "EnsureCanAdd", "ShrinkToFit"}
 \* "reports failure (and stays unchanged) exactly when the ideal operation is undefined (bad index, empty)"
 FailureExact == Stepped =>
     /\ (L.st \notin {"ok", ""} => L.q = L.pre /\ L.o = L.src)
@@ -333,7 +349,8 @@ FailureExact == Stepped =>
     /\ (L.op \in EndOps => (L.st = "notfound" <=> L.pre = <<>>) /\ L.st \in {"ok", "notfound"})
     /\ (L.op \in FindOps => (L.st = "notfound" <=> L.v \notin ItemsOf(L.pre)) /\ L.st \in {"ok", "notfound"})
     /\ (L.op \in {"InsertItemsAt", "InsertItemsAtArr", "InsertItemsAtSelf"} => (L.st = "ok" \/ L.a > Len(L.pre)))
-    /\ (L.op \notin IndexedOps \cup EndOps \cup FindOps \cup {"InsertItemsAt", "InsertItemsAtArr", "InsertItemsAtSelf"} => L.st \in {"ok", ""})
+    /\ (L.op \in SizeOps => (L.st = "err" <=> L.a >= 90) /\ L.st \in {"ok", "err"})
+    /\ (L.op \notin IndexedOps \cup EndOps \cup FindOps \cup SizeOps \cup {"InsertItemsAt", "InsertItemsAtArr", "InsertItemsAtSelf"} => L.st \in {"ok", ""})
 
 QueryOps == {"GetItemAt", "GetItemPtr", "GetWithDefault", "GetWithDefaultV", "HeadWithDefault", "TailWithDefault", "IndexOf", "LastIndexOf", "Contains",
              "StartsWith", "EndsWith", "StartsWithQ", "EndsWithQ", "Cmp", "CmpSelf", "Iter"}
@@ -366,7 +383,7 @@ LenLaw == Stepped =>
     /\ (L.op \in IndexedOps \cup EndOps \cup FindOps /\ L.st = "ok" /\ L.op \notin {"GetItemAt", "ReplaceItemAt", "ReplaceItemAtDefault"} => Len(L.q) = Len(L.pre) - 1)
     /\ (L.op \in {"RemoveHeadMulti", "RemoveTailMulti"} => L.lo = Min(L.a, Len(L.pre)) /\ Len(L.q) = Len(L.pre) - L.lo)
     /\ (L.op \in {"Clear", "FastClear", "Release", "MoveAway"} => L.q = <<>>)
-    /\ (L.op \in {"EnsureSizeSet", "EnsureSizeSetX"} => Len(L.q) = L.a)
+    /\ (L.op \in {"EnsureSizeSet", "EnsureSizeSetX"} /\ L.st = "ok" => Len(L.q) = L.a)
 
 \* the items a step does not touch keep their places relative to each other
 OrderLaw == Stepped =>
